@@ -72,6 +72,16 @@ func fnExec(ctx *cmdContext, args map[string]any) (output respValue, err error) 
 		return
 	}
 
+	// a queued command that needs every database (FLUSHALL) takes the other
+	// database locks while this one is held; the global lock has to come first
+	for _, cc := range *ctx.cs.cmdQueue {
+		if cc.cmdToken == "flushall" {
+			multiDataStoreLock.Lock()
+			defer multiDataStoreLock.Unlock()
+			break
+		}
+	}
+
 	// take complete ownership of the data store
 	ctx.dsc.acquireExclusive()
 	defer ctx.dsc.releaseExclusive()
